@@ -23,7 +23,7 @@ CHECKS = {
  "C06": ("exploration", "differential property test against an independent implementation of FORMAT.md, both directions, plus incremental AES-GCM vs the aes-gcm crate over generated message splits, plus archives of more than 2^8 (both flavours) and 2^16 (scaled) chunks in both directions",
          "Archives written by the library are decoded by refimpl (written from FORMAT.md only: header, ECIES wrap, nonce||BE32(i) chunks, brotli blocks + sizes footer, typed records, end marker, index) and must yield the model's files and the documented structure; archives encoded by refimpl with free parameters must be read identically by the library; the cipher core must equal standard AES-256-GCM for every split. A symmetric change of writer and reader is caught because the other side is independent.",
          "Trusts refimpl (self-test pins it to every number FORMAT.md prints for samples/archive_v1.mla) and the aes-gcm, hkdf, sha2, x25519-dalek, brotli crates as primitives.", "DESIGN.md section 4 C06"),
- "C07": ("exploration", "property tests with statistical and search oracles: repeated creation in-process and across worker processes (pairwise distinctness, per-bit balance), marker search over generated encrypted archives, generated recipient sets x candidate key lists",
+ "C07": ("exploration", "property tests with statistical and search oracles: repeated creation in-process, in children forked from the process at several points of its history, and across spawned worker processes (pairwise distinctness, per-bit balance), marker search over generated encrypted archives, generated recipient sets x candidate key lists",
          "Detects constant or per-process seeding, key / nonce / ephemeral-key reuse, gross entropy loss, any write path that lets plaintext or names through unencrypted, and key-list handling errors (opens iff a recipient key is in the candidate list, at any position). It cannot establish that values are never repeated or unpredictable.",
          "13-sigma statistical bands; incompressible marker contents so that a cipher bypass stays visible behind compression; production constants only.", "DESIGN.md section 4 C07"),
  "C08": ("fault_enumeration", "structure-aware fuzzing: generated (base archive, <=3 byte-level or structure-level mutations re-encoded by refimpl under valid encryption/compression, operation script) cases executed in worker processes with a panic hook, a source work meter and a counting allocator; coverage-guided libFuzzer targets with the same oracle in the thorough tier",
@@ -51,16 +51,16 @@ CHECKS = {
          "Peak live heap while writing, repairing and linearly extracting S and k*S bytes streamed from a generator into a counting sink must stay under 96 MiB and must not grow with the bytes streamed (peak(k*S) <= 1.25 peak(S) + 4 MiB); multiplying the number of files by 4 may cost at most 2 KiB per additional file.",
          "Quick tier compares 8 MiB with 64 MiB, thorough 64 MiB with 1 GiB; only heap allocations through the global allocator are seen.", "DESIGN.md section 4 C15"),
  "C16": ("exploration", "CLI property test in a snapshotted sandbox: generated member-name sets from a path grammar x extraction forms x output arguments, before/after filesystem snapshot as oracle",
-         "`mlar extract` (built from the tree) runs inside a scratch sandbox; a recursive snapshot (path, type, size, SHA-256, link target) of everything outside the output directory, and the listing of the sandbox's parent, must be unchanged whatever the member names are ('..' chains, absolute paths into the sandbox, empty / 256-byte / unicode components, a symlink already present in the output directory); benign representable member sets must be extracted completely with exit status 0.",
+         "`mlar extract` (built from the tree) runs inside a scratch sandbox; a recursive snapshot (path, type, size, SHA-256, link target) of everything outside the output directory, and the listing of the sandbox's parent, must be unchanged whatever the member names are ('..' chains, absolute paths into the sandbox, empty / 256-byte / unicode components, a symlink already present in the output directory); benign representable member sets (some members empty) must be extracted completely with exit status 0.",
          "Filesystem-imposed failures (256-byte components, NUL, prefix-related members) exclude a set from the completeness half only. Empty directories created through a pre-existing symlink of the output directory are counted, not reported (outside the statement's wording, DESIGN.md section 9).", "DESIGN.md section 4 C16"),
- "C17": ("exploration", "CLI round-trip property test: generated file trees x layer/level/key options x create|convert|repair pipelines, every read-side command compared with the input files; negative runs with wrong / missing / superfluous keys",
+ "C17": ("exploration", "CLI round-trip property test: generated file trees (file names on the command line, as a directory, or listed on standard input) x layer/level/key options x create|convert|repair pipelines, every read-side command compared with the input files; negative runs with wrong / missing / superfluous keys",
          "With the `mlar` binary built from the tree, after create and after every convert / repair stage, list, list -vv (humansize DECIMAL size and SHA-256), cat, both forms of extract and to-tar (parsed with the tar crate) must give back exactly the generated files; wrong key, no key and a key for an archive without encryption must fail with a non-zero status and no output content on all six commands.",
          "Sizes are bounded (one ~4 MiB file per tree at most, brotli quality <= 7) to keep a pipeline under a second.", "DESIGN.md section 4 C17"),
  "C18": ("exploration", "round-trip and totality property test of curve25519-parser over generated seeds, PEM wrappings, concatenations, mutated / random DER and PEM bytes and field-by-field generated PKCS#8 / SPKI structures with recomputed lengths; accepted inputs are checked against a structural envelope and inside PEM bundles; libFuzzer target in the thorough tier",
-         "Generated X25519 pairs and harness-built Ed25519 pairs (SHA-512, clamp, base-point multiplication with curve25519-dalek) must parse in DER and PEM to a private key whose public key equals the parsed public key and the independently computed one; all PEM wrappings that are accepted must give the same key, the OpenSSL layout must be accepted, concatenated public keys keep their order; mutated and random inputs must never panic and, when accepted, must yield the key field a lenient TLV walk finds.",
+         "Generated X25519 pairs and harness-built Ed25519 pairs (SHA-512, clamp, base-point multiplication with curve25519-dalek) must parse in DER and PEM to a private key whose public key equals the parsed public key and the independently computed one; all PEM wrappings that are accepted must give the same key, the OpenSSL layout must be accepted, concatenated public keys (also the same key several times) keep their order and number; mutated and random inputs must never panic and, when accepted, must yield the key field a lenient TLV walk finds.",
          "Only the 64-column OpenSSL PEM layout is required to parse; stack overflow in the DER parser would kill the in-process check (none observed; the libFuzzer target runs in its own process).", "DESIGN.md section 4 C18"),
  "C19": ("exploration", "differential property test of the mlar binary against a harness re-implementation of the README algorithm (own ChaCha20 block function, HKDF-SHA512) over generated seeds, parent key forms and path lists",
-         "For generated seeds (unicode, empty, long), parent keys (unclamped / clamped X25519 DER, Ed25519 DER, PEM) and path lists (1..4, repeated, empty), the files written by `mlar keygen --seed` and `mlar keyderive` must equal the documented algorithm, be reproducible, compose path by path, and the .pub file must match the private file.",
+         "For generated seeds (unicode, empty, long), parent keys (unclamped / clamped X25519 DER, Ed25519 DER, PEM, PEM with explanatory text around the block) and path lists (1..4, repeated, empty), the files written by `mlar keygen --seed` and `mlar keyderive` must equal the documented algorithm, be reproducible, compose path by path, and the .pub file must match the private file.",
          "Open finding keyderive-ikm-not-clamped is reported as KNOWN-FINDING and only suppresses outputs that equal the unclamped-IKM variant for parents not in clamped form. Trusts sha2, hkdf, x25519-dalek as primitives.", "DESIGN.md section 4 C19"),
  "C20": ("exploration", "stateful property test of the C entry points of libmla.so (dlopen, Rust callbacks) in worker processes: generated op sequences x write/read callback schedules x failure and null-handle placements, Rust reader and model as oracle",
          "Archives written through mla_config_* / mla_archive_* with write callbacks accepting any part of each buffer must be read by the Rust reader to exactly the files passed in; mla_roarchive_extract with throttled read/seek callbacks must hand each accepted writer exactly its file; every call with a null or interface-cleared handle and every call after a failing callback must return a status, and the worker process must survive.",
